@@ -347,15 +347,31 @@ func faultRunCmd(args []string) {
 			break
 		}
 		e, to := waitMrp(cmd, 90*time.Second)
+		// mrp signals its local jobs when it shuts down and does not wait
+		// for them: a job monitor that is still dying writes its _errors
+		// ("Caught signal terminated") after a restart that follows at
+		// once has already reset the stage.  The restart the property
+		// talks about happens after the previous incarnation is gone.
+		waitGroupGone(cmd.Process.Pid, 10*time.Second)
 		recordComplete(evfile)
 		res.Incarnations = append(res.Incarnations, incarnation{Exit: e, TimedOut: to,
 			LockAfter: lockExists(dir, psid), Events: countLines(evfile), Tail: tail(out.String(), 2500),
 			Ms: time.Since(t0).Milliseconds()})
 		if inc == 0 {
 			// which stage does the failure report name?
-			for _, line := range strings.Split(out.String(), "\n") {
+			// (console output, and the pipestance log: while preflight
+			// stages run the console is kept quiet by design)
+			report := out.String()
+			if b, err := os.ReadFile(filepath.Join(dir, psid, "_log")); err == nil {
+				report += "\n" + string(b)
+			}
+			seen := map[string]bool{}
+			for _, line := range strings.Split(report, "\n") {
 				if strings.Contains(line, "_errors") || strings.Contains(line, "_assert") || strings.Contains(line, "(failed)") {
-					res.ErrorNames = append(res.ErrorNames, strings.TrimSpace(line))
+					if t := strings.TrimSpace(line); !seen[t] {
+						seen[t] = true
+						res.ErrorNames = append(res.ErrorNames, t)
+					}
 				}
 			}
 		}
